@@ -412,7 +412,85 @@ def check_run(case):
     return {"nt": True, "classes": [case["alg"]]}
 
 
+# ---------------------------------------------------------------- the encoder alone (no database): to_dict -> JSON -> from_dict
+
+@st.composite
+def encode_cases(draw):
+    return {"f": draw(fields(3)), "others": draw(st.integers(0, 3))}
+
+
+def check_encode(case):
+    from artap.individual import Individual
+    with guard("encode"):
+        objs = [Individual([float(i)]) for i in range(max(case["others"], 1))]
+        ind = Individual([])
+        _apply(ind, case["f"], objs)
+        want = snapshot(ind)
+        text = json.dumps(ind.to_dict())
+        back = Individual.from_dict(json.loads(text))
+    have = {"vector": back.vector, "costs": back.costs, "costs_signed": back.costs_signed,
+            "population_id": back.population_id, "custom": back.custom, "features": back.features}
+    if back.id != ind.id:
+        raise Violation("encode", "id", "id %r decoded as %r" % (ind.id, back.id))
+    for key in want:
+        if not same(have[key], want[key]):
+            raise Violation("encode", "field:%s" % key, "field %s encoded as %s decoded as %r, was %r" % (
+                key, text[:200], have[key], want[key]))
+    t = json.dumps(case["f"])
+    return {"nt": "Infinity" in t or "-0.0" in t or bool(case["f"]["custom"]), "classes": ["encode"]}
+
+
+def decode_bytes(fdp):
+    """atheris decoder for the encoder clause: raw IEEE doubles (no NaN), small structures"""
+    import math
+
+    def num():
+        x = fdp.ConsumeFloat()
+        if x != x:
+            x = float("inf") if fdp.ConsumeBool() else -0.0
+        return x
+
+    def small_list(k):
+        return [num() for _ in range(fdp.ConsumeIntInRange(0, k))]
+    n, m = fdp.ConsumeIntInRange(0, 4), fdp.ConsumeIntInRange(0, 3)
+    feats = {}
+    for name in ("front_number", "crowding_distance", "dominate", "velocity", "gradient", "extra")[:fdp.ConsumeIntInRange(0, 6)]:
+        kind = ["int", "none", "float", "inf", "ids", "vector", "bool", "gradient", "nested"][fdp.ConsumeIntInRange(0, 8)]
+        if kind == "int":
+            v = {"k": kind, "v": fdp.ConsumeIntInRange(-5, 1000)}
+        elif kind == "none":
+            v = {"k": kind, "v": None}
+        elif kind == "float":
+            v = {"k": kind, "v": num()}
+        elif kind == "inf":
+            v = {"k": kind, "v": float("inf")}
+        elif kind == "ids":
+            v = {"k": kind, "v": [fdp.ConsumeIntInRange(0, 2) for _ in range(fdp.ConsumeIntInRange(0, 3))],
+                 "as_obj": fdp.ConsumeBool()}
+        elif kind == "vector":
+            v = {"k": kind, "v": small_list(4)}
+        elif kind == "bool":
+            v = {"k": kind, "v": fdp.ConsumeBool()}
+        elif kind == "gradient":
+            v = {"k": kind, "v": [x for x in small_list(4) if math.isfinite(x)] or [0.0]}
+        else:
+            v = {"k": kind, "v": [small_list(3) for _ in range(fdp.ConsumeIntInRange(0, 3))]}
+        feats[name] = v
+    custom = {}
+    for i in range(fdp.ConsumeIntInRange(0, 3)):
+        key = fdp.ConsumeUnicodeNoSurrogates(4)
+        custom[key] = [num(), {"n": small_list(2)}, None, fdp.ConsumeUnicodeNoSurrogates(6)][fdp.ConsumeIntInRange(0, 3)]
+    f = {"vector": [num() for _ in range(n)], "costs": [num() for _ in range(m)],
+         "signed": [num() for _ in range(m)] + [fdp.ConsumeBool()], "np": fdp.ConsumeBool(),
+         "pop": fdp.ConsumeIntInRange(-1, 50), "custom": custom, "features": feats, "parents": [], "children": []}
+    return {"f": f, "others": 3}
+
+
+FUZZ_DECODERS = {"encode": decode_bytes}
+FUZZ = ["encode"]
+
 CLAUSES = [
+    Clause("encode", encode_cases(), check_encode, quick=1500, thorough=10000, quick_shards=2),
     Clause("store", histories(), check_history, quick=300, thorough=3000, quick_shards=4),
     Clause("runs", run_cases(), check_run, quick=44, thorough=240, quick_shards=4),
 ]
